@@ -63,7 +63,6 @@ theorem kstep_tmWake {cfg : Cfg} (fuel : Nat) {s : KS} {a : A} {q : QEntry ℚ} 
       show (AL.get? seq (aTick a q.time).S.timers).isSome = true
       rw [hg]; rfl
     obtain ⟨s2, r2, h2⟩ := frag_timeout (cfg := cfg) (a := aTmRun a seq q) h1 hs rfl (upd_same _ _ _) hiT.kind hin
-      (tmLoop seq q.time)
     have hnow2 : s2.now = q.time := by
       have := h2.k.now
       rw [this]
@@ -75,7 +74,7 @@ theorem kstep_tmWake {cfg : Cfg} (fuel : Nat) {s : KS} {a : A} {q : QEntry ℚ} 
       have : (a.tmc seq).stopped = false := l1
       simp only [this, Bool.false_eq_true, if_false, if_true]
       rw [hnow2]
-      exact r2
+      exact r2 _
     obtain ⟨S, ph', e1, e2, ⟨v, e3⟩, e4⟩ := tm_loop_end (body cfg) fuel (a := aFire (aTmRun a seq q) seq)
       (pr := { st := .tmSleep seq q.time, target := some t }) (e := q.ev) h2 hs (upd_same _ _ _) rfl rfl
     have hS : step (body cfg) (fuel + 1) s = .ok S := by
